@@ -16,7 +16,7 @@ NAME = "clocksim"
 SIM_UNIT = "clock ticks"
 BUDGET = {"quick": {"runs": 30000, "wall": 80}, "thorough": {"runs": 150000, "wall": 1200}}
 SHRINK_LISTS = ("ops",)
-PROBES = {"C15": ["refpoint-same-state-new-time", "jump-back", "jump-forward", "jump-tensor", "reset-nonzero", "refpoint-default",
+PROBES = {"C15": ["custom-forward", "ltv-property-only", "refpoint-same-state-new-time", "jump-back", "jump-forward", "jump-tensor", "reset-nonzero", "refpoint-default",
                   "refpoint-explicit", "read-after-call-since-refpoint", "read-after-jump-since-refpoint",
                   "ltv-wrap", "batched-lti", "float-reftime"]}
 TOL = 1e-10
@@ -28,7 +28,7 @@ def generate(seed, tier, prop="C15"):
     cfg = {"kind": kind, "n": r.randint(1, 4), "m": r.randint(1, 3), "q": r.randint(1, 4), "h": r.randint(2, 4),
            "batch": r.choice([0, 0, 1, 2, 3]) if kind != "NLS" else 0, "Tn": r.randint(1, 6),
            "c1": r.random() < 0.7, "c2": r.random() < 0.7, "omega": round(r.uniform(0.1, 1.5), 3),
-           "wrap": r.random() < 0.3}
+           "wrap": r.random() < 0.3, "variant": r.choice(["plain", "plain", "custom-forward", "prop-only"])}
     ro = rng.stream(seed, "ops")
     n_ops = ro.randint(2, 40 if tier == "thorough" else 25)
     w = {"call": 5, "read": 3, "readtime": 1, "reset": ro.choice([0, 1, 2]), "settime": ro.choice([0, 1, 2]),
@@ -62,8 +62,8 @@ def brief(plan):
 def simplify(plan):
     c = plan["config"]
     cands = []
-    for k, v in (("n", 1), ("m", 1), ("q", 1), ("h", 2), ("batch", 0), ("c1", False), ("c2", False), ("Tn", 2)):
-        if c[k] != v:
+    for k, v in (("n", 1), ("m", 1), ("q", 1), ("h", 2), ("batch", 0), ("c1", False), ("c2", False), ("Tn", 2), ("variant", "plain")):
+        if c.get(k) != v:
             cands.append({**plan, "config": dict(c, **{k: v})})
     for i, o in enumerate(plan["ops"]):
         if o.get("tform") not in (None, "int", "i0"):
@@ -94,6 +94,42 @@ class StackedLTV(pp.module.LTV):
     D = property(lambda self: self._at(self._D))
     c1 = property(lambda self: self._at(self._c1, True))
     c2 = property(lambda self: self._at(self._c2, True))
+
+
+class PropLTV(pp.module.LTV):
+    """LTV whose matrices AND constant terms exist only as properties generated from the time (the second pattern of
+    the class documentation); nothing is handed to the constructor."""
+    def __init__(self, mats, T):
+        super().__init__()
+        self.mats, self.T = mats, T
+
+    def _at(self, name, vec=False):
+        M = self.mats[name]
+        if M is None:
+            return None
+        k = self._t % self.T
+        return M[..., k, :] if vec else M[..., k, :, :]
+
+    A = property(lambda self: self._at("A"))
+    B = property(lambda self: self._at("B"))
+    C = property(lambda self: self._at("C"))
+    D = property(lambda self: self._at("D"))
+    c1 = property(lambda self: self._at("c1", True))
+    c2 = property(lambda self: self._at("c2", True))
+
+
+def custom_forward(base):
+    """A subclass that redefines forward() without calling super().forward(): the documented way to add noise or
+    logging around a system.  Its time must still advance by one per call."""
+    class Custom(base):
+        def forward(self, state, input):
+            self.state, self.input = torch.atleast_1d(state), torch.atleast_1d(input)
+            if isinstance(self, pp.module.NLS):
+                return (self.state_transition(self.state, self.input, self.systime),
+                        self.observation(self.state, self.input, self.systime))
+            return self.state_transition(self.state, self.input), self.observation(self.state, self.input)
+    Custom.__name__ = "Custom" + base.__name__
+    return Custom
 
 
 class GenNLS(pp.module.NLS):
@@ -168,7 +204,9 @@ def execute(plan, prop, out, tr):
     P = None
     if kind == "NLS":
         P = nls_params(s, n, m, q, c["h"], c["omega"])
-        sysm = GenNLS(P)
+        sysm = (custom_forward(GenNLS) if c.get("variant") == "custom-forward" else GenNLS)(P)
+        if c.get("variant") == "custom-forward":
+            out.probe("custom-forward")
     else:
         Tn = c["Tn"] if kind == "LTV" else None
         st = (Tn,) if Tn else ()
@@ -176,10 +214,17 @@ def execute(plan, prop, out, tr):
                 "C": rng.randn(s, ("C",), bs + st + (q, n), dt), "D": rng.randn(s, ("D",), bs + st + (q, m), dt),
                 "c1": rng.randn(s, ("c1",), bs + st + (n,), dt) if c["c1"] else None,
                 "c2": rng.randn(s, ("c2",), bs + st + (q,), dt) if c["c2"] else None}
+        var = c.get("variant", "plain")
         if kind == "LTI":
-            sysm = pp.module.LTI(*[mats[k] for k in ("A", "B", "C", "D", "c1", "c2")])
+            cls = custom_forward(pp.module.LTI) if var == "custom-forward" else pp.module.LTI
+            sysm = cls(*[mats[k] for k in ("A", "B", "C", "D", "c1", "c2")])
+        elif var == "prop-only":
+            sysm = PropLTV(mats, Tn); out.probe("ltv-property-only")
         else:
-            sysm = StackedLTV(*[mats[k] for k in ("A", "B", "C", "D", "c1", "c2")], Tn)
+            cls = custom_forward(StackedLTV) if var == "custom-forward" else StackedLTV
+            sysm = cls(*[mats[k] for k in ("A", "B", "C", "D", "c1", "c2")], Tn)
+        if var == "custom-forward":
+            out.probe("custom-forward")
         if bs:
             out.probe("batched-lti")
     npd = lambda t: t.detach().double().numpy()
